@@ -1,0 +1,30 @@
+//go:build verif
+
+package build
+
+import (
+	"archive/tar"
+	"context"
+	"io"
+
+	v1 "github.com/google/go-containerregistry/pkg/v1"
+
+	apkfs "chainguard.dev/apko/pkg/apk/fs"
+	"chainguard.dev/apko/pkg/options"
+)
+
+// VerifLayerFromFS runs Context.ImageLayoutToLayer (checkPaths, newLayerWriter, writeTar, finalize)
+// on an arbitrary file system for the verification harness; the layer is written to tarballPath.
+func VerifLayerFromFS(ctx context.Context, fsys apkfs.FullFS, tarballPath string) (string, v1.Layer, error) {
+	bc := &Context{fs: fsys, o: options.Default}
+	bc.o.TarballPath = tarballPath
+	return bc.ImageLayoutToLayer(ctx)
+}
+
+// VerifWriteTar calls writeTar with a plain (uncompressed) tar writer.
+func VerifWriteTar(ctx context.Context, w io.Writer, fsys apkfs.FullFS) error {
+	return writeTar(ctx, tar.NewWriter(w), fsys)
+}
+
+// VerifFS returns the file system a build context works on (after BuildLayer: the built file system).
+func (bc *Context) VerifFS() apkfs.FullFS { return bc.fs }
